@@ -122,6 +122,9 @@ func exec(op string) string {
 		return "skipped-after-hangs"
 	}
 	steps := strings.Split(op, ";")
+	if len(steps) > 0 && strings.HasPrefix(steps[0], "g=") {
+		return execG(steps)
+	}
 	if len(steps) == 0 || !strings.HasPrefix(steps[0], "w=") {
 		return "bad-op"
 	}
@@ -440,6 +443,9 @@ func genScript(r *vh.Rand, algo, n int, force bool) string {
 }
 
 func gen(r *vh.Rand) string {
+	if r.Chance(1, 8) {
+		return genG(r)
+	}
 	var n int
 	switch r.Intn(10) {
 	case 0:
